@@ -24,7 +24,8 @@ class Gen:
         self.r = rng
         self.ops = [f"setup {backend}"]
         self.ev = []            # per event: dict(sender, g, wrap, root, honest)
-        self.got = {j: set() for j in range(6)}    # roots accepted (optimistically) per client
+        self.got = {j: set() for j in range(7)}    # roots accepted (optimistically) per client
+        self.swapped = False
 
     def fields(self):
         r = self.r
@@ -88,8 +89,23 @@ class Gen:
 def gen_case(rng, k):
     g = Gen(rng, "sql" if k % 2 else "mem")
     n = rng.randrange(18, 42)
+    swap_at = rng.randrange(4, n) if rng.random() < 0.4 else None
     while len(g.ops) < n:
         x = rng.random()
+        if swap_at is not None and len(g.ops) >= swap_at and not g.swapped:
+            # membership churn: B crafts messages in the old epoch (naming itself, the member about to take its leaf,
+            # or others) that are held back; A removes B and adds F (which takes B's leaf); then they arrive
+            held = []
+            for _ in range(rng.randrange(1, 4)):
+                ts, kd, t, c = g.fields()
+                pk = rng.choice(["c6", "c6", "own", "c0", "out0"])
+                g.ops.append(f"adv 1 0 {pk} {rng.choice(['none', 'ok'])} {ts} {kd} {t} {c} 0")
+                g.ev.append(dict(sender=1, g=0, wrap=0, root=len(g.ev), honest=False))
+                held.append(len(g.ev) - 1)
+            g.ops.append("swap"); g.swapped = True
+            for e in held:
+                g.deliver(e, rng.choice([3, 3, 0, 2]))
+            continue
         if x < 0.22 or not g.ev:
             e = g.send()
             for _ in range(rng.randrange(0, 3)):
@@ -151,9 +167,9 @@ def event_table(ops):
     for op in ops:
         t = op.split()
         if t[0] == "send":
-            ev.append(dict(sender=int(t[1]), root=len(ev), honest=True))
+            ev.append(dict(sender=int(t[1]), root=len(ev), honest=True, g=int(t[2])))
         elif t[0] == "adv":
-            ev.append(dict(sender=int(t[1]), root=len(ev), honest=False))
+            ev.append(dict(sender=int(t[1]), root=len(ev), honest=False, g=int(t[2])))
         elif t[0] in ("rewrap", "retag"):
             n = int(t[1])
             ev.append(dict(ev[n]) if n < len(ev) else dict(sender=-1, root=len(ev), honest=False))
@@ -202,12 +218,18 @@ def run(cases):
         c["impl"] = impl[i:i + len(c["ops"])]; i += len(c["ops"])
         ev = event_table(c["ops"])
         c["dlines"] = []
+        swapped = False
         for op, o in zip(c["ops"], c["impl"]):
             t = op.split()
+            if t[0] == "swap":
+                swapped = True
             if t[0] == "setup":
                 d = "setup"
             elif t[0] == "deliver" and int(t[2]) < len(ev) and (ev[int(t[2])]["sender"] == 4 or t[1] == "4"):
                 # the stale ex-member: whether OpenMLS still opens its old-epoch ciphertext is taken from the run
+                d = op + (" mls=ok" if split(o)[0].startswith("app") else " mls=fail"); hatch += 1
+            elif t[0] == "deliver" and swapped and int(t[2]) < len(ev) and ev[int(t[2])].get("g") == 0 and (ev[int(t[2])]["sender"] == 1 or t[1] in ("1", "6")):
+                # after the churn B is a stale ex-member of g0 too (and F a member that joined later)
                 d = op + (" mls=ok" if split(o)[0].startswith("app") else " mls=fail"); hatch += 1
             else:
                 d = op
